@@ -1,0 +1,560 @@
+//go:build verif
+
+package gmtls
+
+// Verification hooks (build tag "verif" only): handshake message codecs
+// (marshal / unmarshal of every handshake message type, with the same dispatch
+// as Conn.readHandshake), the GM ECC key agreement functions on bare inputs,
+// Conn.readHandshake in a loop over a caller-supplied net.Conn, and
+// Config.mutualVersion.  Nothing here is compiled without the tag and nothing
+// here changes the behaviour of the wrapped functions.
+//
+// Sections:
+//   1. handshake message codecs
+//   2. GM ECC key agreement
+//   3. record / handshake layer drivers
+//   4. VerifConn: scriptable endpoint on the real record layer (C08)
+
+import (
+	"net"
+	"sync/atomic"
+
+	"github.com/tjfoc/gmsm/x509"
+)
+
+// ---------------------------------------------------------------------------
+// 1. handshake message codecs
+// ---------------------------------------------------------------------------
+
+// VerifClientHello is the exported mirror of clientHelloMsg.
+type VerifClientHello struct {
+	Vers                         uint16
+	Random                       []byte
+	SessionId                    []byte
+	CipherSuites                 []uint16
+	CompressionMethods           []uint8
+	NextProtoNeg                 bool
+	ServerName                   string
+	OcspStapling                 bool
+	Scts                         bool
+	SupportedCurves              []uint16
+	SupportedPoints              []uint8
+	TicketSupported              bool
+	SessionTicket                []byte
+	SignatureAlgorithms          []uint16
+	SecureRenegotiation          []byte
+	SecureRenegotiationSupported bool
+	AlpnProtocols                []string
+}
+
+func (v *VerifClientHello) in() *clientHelloMsg {
+	m := &clientHelloMsg{
+		vers:                         v.Vers,
+		random:                       v.Random,
+		sessionId:                    v.SessionId,
+		cipherSuites:                 v.CipherSuites,
+		compressionMethods:           v.CompressionMethods,
+		nextProtoNeg:                 v.NextProtoNeg,
+		serverName:                   v.ServerName,
+		ocspStapling:                 v.OcspStapling,
+		scts:                         v.Scts,
+		supportedPoints:              v.SupportedPoints,
+		ticketSupported:              v.TicketSupported,
+		sessionTicket:                v.SessionTicket,
+		secureRenegotiation:          v.SecureRenegotiation,
+		secureRenegotiationSupported: v.SecureRenegotiationSupported,
+		alpnProtocols:                v.AlpnProtocols,
+	}
+	for _, c := range v.SupportedCurves {
+		m.supportedCurves = append(m.supportedCurves, CurveID(c))
+	}
+	for _, s := range v.SignatureAlgorithms {
+		m.supportedSignatureAlgorithms = append(m.supportedSignatureAlgorithms, SignatureScheme(s))
+	}
+	return m
+}
+
+func verifClientHelloOut(m *clientHelloMsg) VerifClientHello {
+	v := VerifClientHello{
+		Vers:                         m.vers,
+		Random:                       m.random,
+		SessionId:                    m.sessionId,
+		CipherSuites:                 m.cipherSuites,
+		CompressionMethods:           m.compressionMethods,
+		NextProtoNeg:                 m.nextProtoNeg,
+		ServerName:                   m.serverName,
+		OcspStapling:                 m.ocspStapling,
+		Scts:                         m.scts,
+		SupportedPoints:              m.supportedPoints,
+		TicketSupported:              m.ticketSupported,
+		SessionTicket:                m.sessionTicket,
+		SecureRenegotiation:          m.secureRenegotiation,
+		SecureRenegotiationSupported: m.secureRenegotiationSupported,
+		AlpnProtocols:                m.alpnProtocols,
+	}
+	for _, c := range m.supportedCurves {
+		v.SupportedCurves = append(v.SupportedCurves, uint16(c))
+	}
+	for _, s := range m.supportedSignatureAlgorithms {
+		v.SignatureAlgorithms = append(v.SignatureAlgorithms, uint16(s))
+	}
+	return v
+}
+
+// VerifMarshalClientHello calls (*clientHelloMsg).marshal.
+func VerifMarshalClientHello(v VerifClientHello) []byte { return v.in().marshal() }
+
+// VerifParseClientHello calls (*clientHelloMsg).unmarshal on a fresh message
+// (data includes the 4-byte handshake header).
+func VerifParseClientHello(data []byte) (VerifClientHello, bool) {
+	m := new(clientHelloMsg)
+	ok := m.unmarshal(append([]byte(nil), data...))
+	return verifClientHelloOut(m), ok
+}
+
+// VerifServerHello is the exported mirror of serverHelloMsg.
+type VerifServerHello struct {
+	Vers                         uint16
+	Random                       []byte
+	SessionId                    []byte
+	CipherSuite                  uint16
+	CompressionMethod            uint8
+	NextProtoNeg                 bool
+	NextProtos                   []string
+	OcspStapling                 bool
+	Scts                         [][]byte
+	TicketSupported              bool
+	SecureRenegotiation          []byte
+	SecureRenegotiationSupported bool
+	AlpnProtocol                 string
+}
+
+func (v *VerifServerHello) in() *serverHelloMsg {
+	return &serverHelloMsg{
+		vers:                         v.Vers,
+		random:                       v.Random,
+		sessionId:                    v.SessionId,
+		cipherSuite:                  v.CipherSuite,
+		compressionMethod:            v.CompressionMethod,
+		nextProtoNeg:                 v.NextProtoNeg,
+		nextProtos:                   v.NextProtos,
+		ocspStapling:                 v.OcspStapling,
+		scts:                         v.Scts,
+		ticketSupported:              v.TicketSupported,
+		secureRenegotiation:          v.SecureRenegotiation,
+		secureRenegotiationSupported: v.SecureRenegotiationSupported,
+		alpnProtocol:                 v.AlpnProtocol,
+	}
+}
+
+// VerifMarshalServerHello calls (*serverHelloMsg).marshal.
+func VerifMarshalServerHello(v VerifServerHello) []byte { return v.in().marshal() }
+
+// VerifParseServerHello calls (*serverHelloMsg).unmarshal on a fresh message.
+func VerifParseServerHello(data []byte) (VerifServerHello, bool) {
+	m := new(serverHelloMsg)
+	ok := m.unmarshal(append([]byte(nil), data...))
+	return VerifServerHello{
+		Vers:                         m.vers,
+		Random:                       m.random,
+		SessionId:                    m.sessionId,
+		CipherSuite:                  m.cipherSuite,
+		CompressionMethod:            m.compressionMethod,
+		NextProtoNeg:                 m.nextProtoNeg,
+		NextProtos:                   m.nextProtos,
+		OcspStapling:                 m.ocspStapling,
+		Scts:                         m.scts,
+		TicketSupported:              m.ticketSupported,
+		SecureRenegotiation:          m.secureRenegotiation,
+		SecureRenegotiationSupported: m.secureRenegotiationSupported,
+		AlpnProtocol:                 m.alpnProtocol,
+	}, ok
+}
+
+// VerifMarshalCertificate calls (*certificateMsg).marshal.
+func VerifMarshalCertificate(certs [][]byte) []byte {
+	return (&certificateMsg{certificates: certs}).marshal()
+}
+
+// VerifParseCertificate calls (*certificateMsg).unmarshal on a fresh message.
+func VerifParseCertificate(data []byte) ([][]byte, bool) {
+	m := new(certificateMsg)
+	ok := m.unmarshal(append([]byte(nil), data...))
+	return m.certificates, ok
+}
+
+func VerifMarshalServerKeyExchange(key []byte) []byte {
+	return (&serverKeyExchangeMsg{key: key}).marshal()
+}
+
+func VerifMarshalClientKeyExchange(ct []byte) []byte {
+	return (&clientKeyExchangeMsg{ciphertext: ct}).marshal()
+}
+
+func VerifMarshalCertificateVerify(hasSigAndHash bool, alg uint16, sig []byte) []byte {
+	return (&certificateVerifyMsg{hasSignatureAndHash: hasSigAndHash, signatureAlgorithm: SignatureScheme(alg), signature: sig}).marshal()
+}
+
+func VerifMarshalFinished(vd []byte) []byte { return (&finishedMsg{verifyData: vd}).marshal() }
+
+func VerifMarshalNewSessionTicket(t []byte) []byte {
+	return (&newSessionTicketMsg{ticket: t}).marshal()
+}
+
+// VerifMarshalCertificateStatus marshals an OCSP certificate status message.
+func VerifMarshalCertificateStatus(resp []byte) []byte {
+	return (&certificateStatusMsg{statusType: statusTypeOCSP, response: resp}).marshal()
+}
+
+func VerifMarshalNextProto(p string) []byte { return (&nextProtoMsg{proto: p}).marshal() }
+
+func VerifMarshalHelloRequest() []byte { return (&helloRequestMsg{}).marshal() }
+
+func VerifMarshalServerHelloDone() []byte { return (&serverHelloDoneMsg{}).marshal() }
+
+func VerifMarshalCertificateRequestGM(types []byte, cas [][]byte) []byte {
+	return (&certificateRequestMsgGM{certificateTypes: types, certificateAuthorities: cas}).marshal()
+}
+
+func VerifMarshalCertificateRequest(hasSigAndHash bool, types []byte, algs []uint16, cas [][]byte) []byte {
+	m := &certificateRequestMsg{hasSignatureAndHash: hasSigAndHash, certificateTypes: types, certificateAuthorities: cas}
+	for _, a := range algs {
+		m.supportedSignatureAlgorithms = append(m.supportedSignatureAlgorithms, SignatureScheme(a))
+	}
+	return m.marshal()
+}
+
+// verifNewMessage is the type dispatch of Conn.readHandshake: gm stands for
+// c.config.GMSupport != nil, vers for c.vers.
+func verifNewMessage(typ uint8, gm bool, vers uint16) handshakeMessage {
+	switch typ {
+	case typeHelloRequest:
+		return new(helloRequestMsg)
+	case typeClientHello:
+		return new(clientHelloMsg)
+	case typeServerHello:
+		return new(serverHelloMsg)
+	case typeNewSessionTicket:
+		return new(newSessionTicketMsg)
+	case typeCertificate:
+		return new(certificateMsg)
+	case typeCertificateRequest:
+		if gm {
+			return &certificateRequestMsgGM{}
+		}
+		return &certificateRequestMsg{hasSignatureAndHash: vers >= VersionTLS12}
+	case typeCertificateStatus:
+		return new(certificateStatusMsg)
+	case typeServerKeyExchange:
+		return new(serverKeyExchangeMsg)
+	case typeServerHelloDone:
+		return new(serverHelloDoneMsg)
+	case typeClientKeyExchange:
+		return new(clientKeyExchangeMsg)
+	case typeCertificateVerify:
+		return &certificateVerifyMsg{hasSignatureAndHash: vers >= VersionTLS12}
+	case typeNextProtocol:
+		return new(nextProtoMsg)
+	case typeFinished:
+		return new(finishedMsg)
+	}
+	return nil
+}
+
+// VerifUnmarshal runs the unmarshal function Conn.readHandshake would run on a
+// complete handshake message (data includes the 4-byte header) of type typ on a
+// connection with (config.GMSupport != nil) == gm and c.vers == vers.
+// known is false for a type readHandshake rejects as unknown.
+func VerifUnmarshal(typ uint8, gm bool, vers uint16, data []byte) (known bool, ok bool) {
+	m := verifNewMessage(typ, gm, vers)
+	if m == nil {
+		return false, false
+	}
+	return true, m.unmarshal(append([]byte(nil), data...))
+}
+
+// VerifCertReqGMUnmarshal calls (*certificateRequestMsgGM).unmarshal.
+func VerifCertReqGMUnmarshal(data []byte) (ok bool, types []byte, cas [][]byte) {
+	m := &certificateRequestMsgGM{}
+	ok = m.unmarshal(append([]byte(nil), data...))
+	return ok, m.certificateTypes, m.certificateAuthorities
+}
+
+// ---------------------------------------------------------------------------
+// 2. GM ECC key agreement (eccKeyAgreementGM) on bare inputs
+// ---------------------------------------------------------------------------
+
+// VerifECCGenerateServerKeyExchange runs eccKeyAgreementGM.generateServerKeyExchange
+// (signature by sign.PrivateKey over clientRandom ‖ serverRandom ‖ len3 ‖ enc.Certificate[0])
+// and returns skx.key.
+func VerifECCGenerateServerKeyExchange(sign, enc *Certificate, clientRandom, serverRandom []byte) ([]byte, error) {
+	ka := &eccKeyAgreementGM{version: VersionGMSSL}
+	skx, err := ka.generateServerKeyExchange(&Config{}, sign, enc,
+		&clientHelloMsg{vers: VersionGMSSL, random: clientRandom}, &serverHelloMsg{vers: VersionGMSSL, random: serverRandom})
+	if err != nil {
+		return nil, err
+	}
+	return skx.key, nil
+}
+
+// VerifECCProcessServerKeyExchange runs eccKeyAgreementGM.processServerKeyExchange
+// with cert = signCertDER and encipherCert = encCertDER.
+func VerifECCProcessServerKeyExchange(signCertDER, encCertDER, clientRandom, serverRandom, key []byte) error {
+	signCert, err := x509.ParseCertificate(signCertDER)
+	if err != nil {
+		panic("VerifECCProcessServerKeyExchange: bad signing certificate: " + err.Error())
+	}
+	encCert, err := x509.ParseCertificate(encCertDER)
+	if err != nil {
+		panic("VerifECCProcessServerKeyExchange: bad encryption certificate: " + err.Error())
+	}
+	ka := &eccKeyAgreementGM{version: VersionGMSSL, encipherCert: encCert}
+	return ka.processServerKeyExchange(&Config{},
+		&clientHelloMsg{vers: VersionGMSSL, random: clientRandom}, &serverHelloMsg{vers: VersionGMSSL, random: serverRandom},
+		signCert, &serverKeyExchangeMsg{key: append([]byte(nil), key...)})
+}
+
+// VerifECCGenerateClientKeyExchange runs eccKeyAgreementGM.generateClientKeyExchange
+// for a ClientHello of version vers against the encryption certificate encCertDER
+// and returns the premaster secret and ckx.ciphertext (2-byte length ‖ SM2 ciphertext).
+func VerifECCGenerateClientKeyExchange(encCertDER []byte, vers uint16) (pms, body []byte, err error) {
+	encCert, err := x509.ParseCertificate(encCertDER)
+	if err != nil {
+		return nil, nil, err
+	}
+	ka := &eccKeyAgreementGM{version: VersionGMSSL, encipherCert: encCert}
+	pms, ckx, err := ka.generateClientKeyExchange(&Config{}, &clientHelloMsg{vers: vers, random: make([]byte, 32)}, encCert)
+	if err != nil {
+		return nil, nil, err
+	}
+	return pms, ckx.ciphertext, nil
+}
+
+// VerifECCProcessClientKeyExchange runs eccKeyAgreementGM.processClientKeyExchange
+// (config = empty, cert = enc, version = VersionGMSSL) on a ClientKeyExchange body.
+func VerifECCProcessClientKeyExchange(enc *Certificate, body []byte) ([]byte, error) {
+	ka := &eccKeyAgreementGM{version: VersionGMSSL}
+	return ka.processClientKeyExchange(&Config{}, enc, &clientKeyExchangeMsg{ciphertext: append([]byte(nil), body...)}, VersionGMSSL)
+}
+
+// ---------------------------------------------------------------------------
+// 3. record / handshake layer drivers
+// ---------------------------------------------------------------------------
+
+// verifTypeLen returns the handshake type and body length of a message
+// returned by readHandshake.
+func verifTypeLen(m interface{}) (uint8, int) {
+	body := func(raw []byte) int {
+		if len(raw) < 4 {
+			return 0
+		}
+		return len(raw) - 4
+	}
+	switch x := m.(type) {
+	case *helloRequestMsg:
+		return typeHelloRequest, 0
+	case *clientHelloMsg:
+		return typeClientHello, body(x.raw)
+	case *serverHelloMsg:
+		return typeServerHello, body(x.raw)
+	case *newSessionTicketMsg:
+		return typeNewSessionTicket, body(x.raw)
+	case *certificateMsg:
+		return typeCertificate, body(x.raw)
+	case *certificateRequestMsgGM:
+		return typeCertificateRequest, body(x.raw)
+	case *certificateRequestMsg:
+		return typeCertificateRequest, body(x.raw)
+	case *certificateStatusMsg:
+		return typeCertificateStatus, body(x.raw)
+	case *serverKeyExchangeMsg:
+		return typeServerKeyExchange, body(x.raw)
+	case *serverHelloDoneMsg:
+		return typeServerHelloDone, 0
+	case *clientKeyExchangeMsg:
+		return typeClientKeyExchange, body(x.raw)
+	case *certificateVerifyMsg:
+		return typeCertificateVerify, body(x.raw)
+	case *nextProtoMsg:
+		return typeNextProtocol, body(x.raw)
+	case *finishedMsg:
+		return typeFinished, body(x.raw)
+	}
+	return 255, -1
+}
+
+// VerifReadHandshakes builds a fresh client Conn over conn (GM client if gm)
+// and calls c.readHandshake, holding c.in like Handshake does, until it fails.
+// It returns the type and body length of every message returned and the error
+// that ended the loop.
+func VerifReadHandshakes(conn net.Conn, gm bool) (types []uint8, lens []int, err error) {
+	cfg := &Config{InsecureSkipVerify: true}
+	if gm {
+		cfg.GMSupport = &GMSupport{}
+	}
+	c := Client(conn, cfg)
+	c.in.Lock()
+	defer c.in.Unlock()
+	for {
+		m, e := c.readHandshake()
+		if e != nil {
+			return types, lens, e
+		}
+		t, n := verifTypeLen(m)
+		types = append(types, t)
+		lens = append(lens, n)
+	}
+}
+
+// VerifMutualVersion calls (*Config).mutualVersion.
+func VerifMutualVersion(cfg *Config, v uint16) (uint16, bool) { return cfg.mutualVersion(v) }
+
+// ---------------------------------------------------------------------------
+// 4. VerifConn: a scriptable endpoint on top of the REAL record layer (C08)
+// ---------------------------------------------------------------------------
+
+// VerifConn wraps a Conn whose handshake is driven message by message from
+// outside the package.  It holds c.in locked, as Conn.Handshake does, until
+// Release / MarkComplete.
+type VerifConn struct {
+	c      *Conn
+	locked bool
+}
+
+// VerifNewConn wraps Client(conn, cfg) or Server(conn, cfg).
+func VerifNewConn(conn net.Conn, cfg *Config, isClient bool) *VerifConn {
+	var c *Conn
+	if isClient {
+		c = Client(conn, cfg)
+	} else {
+		c = Server(conn, cfg)
+	}
+	c.in.Lock()
+	return &VerifConn{c: c, locked: true}
+}
+
+// SetVersion fixes the protocol version of the record layer (c.vers, c.haveVers).
+func (v *VerifConn) SetVersion(vers uint16) {
+	v.c.vers = vers
+	v.c.haveVers = true
+}
+
+// WriteHandshake sends one handshake message (4-byte header included).
+func (v *VerifConn) WriteHandshake(msg []byte) error {
+	_, err := v.c.writeRecord(recordTypeHandshake, msg)
+	return err
+}
+
+// WriteCCS sends ChangeCipherSpec; writeRecord then activates the prepared
+// outgoing cipher exactly as in the real handshake.
+func (v *VerifConn) WriteCCS() error {
+	_, err := v.c.writeRecord(recordTypeChangeCipherSpec, []byte{1})
+	return err
+}
+
+// SetBuffering switches the write buffering of the handshake flights on (c.buffering).
+func (v *VerifConn) SetBuffering(on bool) { v.c.buffering = on }
+
+// Flush calls c.flush.
+func (v *VerifConn) Flush() error {
+	_, err := v.c.flush()
+	return err
+}
+
+// ReadHandshakeRaw calls c.readHandshake and returns the type of the message
+// and the bytes the handshake hashes (msg.marshal()).
+func (v *VerifConn) ReadHandshakeRaw() (typ uint8, raw []byte, err error) {
+	m, err := v.c.readHandshake()
+	if err != nil {
+		return 0, nil, err
+	}
+	t, _ := verifTypeLen(m)
+	hm, ok := m.(handshakeMessage)
+	if !ok {
+		return t, nil, nil
+	}
+	return t, hm.marshal(), nil
+}
+
+// ReadCCS calls c.readRecord(recordTypeChangeCipherSpec) and returns c.in.err,
+// like readFinished does.
+func (v *VerifConn) ReadCCS() error {
+	v.c.readRecord(recordTypeChangeCipherSpec)
+	return v.c.in.err
+}
+
+func verifGMSuite(id uint16) *cipherSuite {
+	for _, s := range gmCipherSuites {
+		if s.id == id {
+			return s
+		}
+	}
+	panic("verif: not a GM cipher suite")
+}
+
+// EstablishKeys derives the key block from the master secret and prepares the
+// cipher specs of both directions for the role of the connection (the code of
+// establishKeys of the GM client / server handshake states).
+func (v *VerifConn) EstablishKeys(suiteID uint16, master, clientRandom, serverRandom []byte) {
+	c := v.c
+	suite := verifGMSuite(suiteID)
+	clientMAC, serverMAC, clientKey, serverKey, clientIV, serverIV :=
+		keysFromMasterSecret(c.vers, suite, master, clientRandom, serverRandom, suite.macLen, suite.keyLen, suite.ivLen)
+	var clientCipher, serverCipher interface{}
+	var clientHash, serverHash macFunction
+	if suite.cipher != nil {
+		clientCipher = suite.cipher(clientKey, clientIV, !c.isClient)
+		clientHash = suite.mac(c.vers, clientMAC)
+		serverCipher = suite.cipher(serverKey, serverIV, c.isClient)
+		serverHash = suite.mac(c.vers, serverMAC)
+	} else {
+		clientCipher = suite.aead(clientKey, clientIV)
+		serverCipher = suite.aead(serverKey, serverIV)
+	}
+	if c.isClient {
+		c.in.prepareCipherSpec(c.vers, serverCipher, serverHash)
+		c.out.prepareCipherSpec(c.vers, clientCipher, clientHash)
+	} else {
+		c.in.prepareCipherSpec(c.vers, clientCipher, clientHash)
+		c.out.prepareCipherSpec(c.vers, serverCipher, serverHash)
+	}
+}
+
+// VerifMasterSecret calls masterFromPreMasterSecret for a GM suite.
+func VerifMasterSecret(vers, suiteID uint16, pms, clientRandom, serverRandom []byte) []byte {
+	return masterFromPreMasterSecret(vers, verifGMSuite(suiteID), pms, clientRandom, serverRandom)
+}
+
+// VerifFinishedHash wraps the GM finishedHash.
+type VerifFinishedHash struct{ h finishedHash }
+
+func VerifNewFinishedHashGM() *VerifFinishedHash {
+	return &VerifFinishedHash{h: newFinishedHashGM(gmCipherSuites[0])}
+}
+
+func (f *VerifFinishedHash) Write(msg []byte)               { f.h.Write(msg) }
+func (f *VerifFinishedHash) ClientSum(master []byte) []byte { return f.h.clientSum(master) }
+func (f *VerifFinishedHash) ServerSum(master []byte) []byte { return f.h.serverSum(master) }
+
+// ClientCertDigest is what the GM client signs in CertificateVerify
+// (finishedHash.client.Sum(nil)).
+func (f *VerifFinishedHash) ClientCertDigest() []byte { return f.h.client.Sum(nil) }
+
+// Release gives c.in back.
+func (v *VerifConn) Release() {
+	if v.locked {
+		v.locked = false
+		v.c.in.Unlock()
+	}
+}
+
+// MarkComplete marks the handshake as done (handshakeStatus = 1) and releases
+// c.in, so that application data can be exchanged through Conn().
+func (v *VerifConn) MarkComplete() {
+	atomic.StoreUint32(&v.c.handshakeStatus, 1)
+	v.c.handshakes++
+	v.Release()
+}
+
+// Conn returns the wrapped connection.
+func (v *VerifConn) Conn() *Conn { return v.c }
